@@ -135,6 +135,32 @@ Proof.
 Qed.
 Print Assumptions C11_stamp_newer_after_change.
 
+(* Without per-relay differences the exception disappears: if in the earlier round all relay
+   entries of that validator carry the same fee recipient and gas limit ([uniform_pub]), a
+   registration with another content sent in any later round is STRICTLY newer -- the statement of
+   DESIGN section 6 in full, for every history of configuration changes. *)
+Theorem C11_stamp_strictly_newer_after_change :
+  forall ops, increasing ops ->
+    forall i j ri rj erri reqsi relaysi nodesi errj reqsj relaysj nodesj,
+      (i < j)%nat ->
+      nth_error ops i = Some (ORound ri) ->
+      nth_error ops j = Some (ORound rj) ->
+      nth_error (snd (run init ops)) i = Some (OutRound erri reqsi relaysi nodesi) ->
+      nth_error (snd (run init ops)) j = Some (OutRound errj reqsj relaysj nodesj) ->
+      forall a regsi sri a' regsj srj,
+        In (a, regsi) relaysi -> In sri regsi -> In (a', regsj) relaysj -> In srj regsj ->
+        ct_pub (sr_content sri) = ct_pub (sr_content srj) ->
+        sr_content sri <> sr_content srj ->
+        uniform_pub ri (ct_pub (sr_content sri)) ->
+        sr_stamp sri < sr_stamp srj.
+Proof.
+  intros ops Hinc i j ri rj erri reqsi relaysi nodesi errj reqsj relaysj nodesj Hlt Hi Hj Hoi Hoj
+         a regsi sri a' regsj srj H1 H2 H3 H4 Hp Hne Hun.
+  exact (stamps_strict ops Hinc i j ri rj erri reqsi relaysi nodesi errj reqsj relaysj nodesj Hlt Hi Hj Hoi Hoj
+           a sri a' srj (ex_intro _ regsi (conj H1 H2)) (ex_intro _ regsj (conj H3 H4)) Hp Hne Hun).
+Qed.
+Print Assumptions C11_stamp_strictly_newer_after_change.
+
 (* ------------------------------------------------------------------------------------------- *)
 (* 5. Proposal preparations.  Whenever the accounts are available and there is at least one, EVERY
    configured beacon node is called, each with the same list, whatever the other nodes answer; the
@@ -288,4 +314,16 @@ Proof.
   split.
   - repeat constructor; cbn; try reflexivity; try (intro H; exfalso; apply H; reflexivity); try discriminate.
   - vm_compute. discriminate.
+Qed.
+
+(* Non-vacuity of [uniform_pub]: validator 200 in the first round of the example (both relay
+   entries with fee recipient 1 and gas limit 30), next to validator 211. *)
+Example C11_uniform_example :
+  uniform_pub {| r_now := 10; r_cfg := true; r_api := false; r_acct_err := false;
+                 r_vals := [ex_val 1 1 []; ex_other true []]; r_relays := []; r_nodes := [] |} 200.
+Proof.
+  intros v v' res res' rc rc' Hv Hv' Hp Hp' Hres Hres' Hrc Hrc'. cbn in Hv, Hv'.
+  destruct Hv as [<-|[<-|[]]]; [|discriminate]. destruct Hv' as [<-|[<-|[]]]; [|discriminate].
+  cbn in Hres, Hres'. injection Hres as <-. injection Hres' as <-. cbn in Hrc, Hrc'.
+  destruct Hrc as [<-|[<-|[]]]; destruct Hrc' as [<-|[<-|[]]]; split; reflexivity.
 Qed.
